@@ -670,6 +670,11 @@ func (ev *Eval) call(name string, args []interface{}) (interface{}, error) {
 		case 0:
 			return nil, ErrEval
 		case -1:
+			if _, isRef := a.(*Closure); isRef && (name == "type" || name == "to_number") {
+				// gap G11 narrowed: these two must classify their argument, and an expression
+				// reference is none of the JSON types, so "a value is required" here (C10)
+				return nil, ErrEval
+			}
 			gap = true
 		}
 	}
